@@ -210,7 +210,8 @@ class Controller:
 
     # ----- events
     def ev(self, *e: Any) -> None:
-        self.len_calls = 0
+        if e[0] != "pick":  # choosing a candidate again and again without anything else happening is a spin
+            self.len_calls = 0
         self.trace.append(e)
 
     def serial_of(self, results: Any) -> int:
@@ -517,7 +518,16 @@ def hooked_run(main, **kw):
     async def wrapper():
         loop = _real_asyncio.get_running_loop()
         loop.set_exception_handler(lambda _l, _c: None)
-        return await main
+        # the loop's default executor is owned as well: code that hands nodes to it (asyncio.to_thread,
+        # run_in_executor(None, ...)) stays under the controller instead of escaping it
+        dflt = HookedPool(max_workers=16)
+        loop.set_default_executor(dflt)
+        try:
+            return await main
+        finally:
+            for r in c.recs:
+                if r.pool is dflt:
+                    r.gate.set()
 
     return _real_asyncio.run(wrapper(), **kw)
 
@@ -608,7 +618,7 @@ def _alarm(_sig, _frm):
 def arm_watchdog(seconds: float) -> None:
     if threading.current_thread() is threading.main_thread():
         signal.signal(signal.SIGALRM, _alarm)
-        signal.setitimer(signal.ITIMER_REAL, seconds)
+        signal.setitimer(signal.ITIMER_REAL, seconds, seconds)  # periodic: a swallowed alarm comes again
 
 
 def disarm_watchdog() -> None:
@@ -648,6 +658,7 @@ def run_controlled(op, *, prefix=(), is_async=False, batch_order=False, watchdog
                 async def main():
                     loop = _real_asyncio.get_running_loop()
                     loop.set_exception_handler(lambda _l, _c: None)
+                    loop.set_default_executor(HookedPool(max_workers=16))
                     try:
                         v = await op()
                         c.ev("ret")
